@@ -139,7 +139,10 @@ def correspond(ctx, corr):
     for _ in range(3000 if not ctx.thorough else 20000):
         sa, inum, info = rng.randrange(64), rng.randrange(32), rng.randrange(1024)
         d = (sa << 17) | (1 << 15) | (inum << 10) | info
-        amb = command.from_frame(ForwardFrame(24, d))
+        # the first decode happens without a map, with an empty map, or with a map that has other entries
+        first = rng.choice([None, {}, {((sa + 1) % 64, inum): 1}, {(sa, (inum + 1) % 32): 4, ((sa + 7) % 64, inum): 3}])
+        amb = command.from_frame(ForwardFrame(24, d),
+                                 dev_inst_map=None if first is None else DeviceInstanceTypeMapper(dict(first)))
         if not isinstance(amb, dg.AmbiguousInstanceType):
             corr.violate("event:ambiguous", "dec 24 %d 0 -" % d, "AmbiguousInstanceType", cc.clsname(amb))
             continue
